@@ -90,11 +90,13 @@ def run_validate(ctx, nscen, thorough):
         files = {}
         for i, r in enumerate(sc['rules']):
             files['rules/r%d.guard' % i] = r
+        # every other scenario keeps its data files under ONE base name in different directories (a cache keyed by the
+        # base name would hand one document to another file)
+        dn = [('data/s%d/template.json' % j) if k % 2 == 1 else ('data/d%d.json' % j) for j in range(len(sc['docs']))]
         for j, t in enumerate(sc['docs']):
-            files['data/d%d.json' % j] = json.dumps(t)
+            files[dn[j]] = json.dumps(t)
         e2e.write_files(d, files)
         rn = ['rules/r%d.guard' % i for i in range(len(sc['rules']))]
-        dn = ['data/d%d.json' % j for j in range(len(sc['docs']))]
         for i, r in enumerate(rn):
             for j, x in enumerate(dn):
                 jobs.append({'args': ['validate', '-r', r, '-d', x] + flags, 'cwd': d})
@@ -115,6 +117,13 @@ def run_validate(ctx, nscen, thorough):
         for fl in ('-a', '-m'):
             jobs.append({'args': ['validate', '-r', 'rules', '-d', 'data', fl] + flags, 'cwd': d})
             meta.append((k, 'dir' + fl, None))
+        args = ['validate', '--structured', '-o', 'junit', '-S', 'none']
+        for r in rn:
+            args += ['-r', r]
+        for x in dn:
+            args += ['-d', x]
+        jobs.append({'args': args, 'cwd': d})
+        meta.append((k, 'junit', None))
         payload = json.dumps({'rules': sc['rules'], 'data': [json.dumps(t) for t in sc['docs']]})
         jobs.append({'args': ['validate', '--payload'] + flags, 'cwd': d, 'stdin': payload.encode()})
         meta.append((k, 'payload', None))
@@ -166,15 +175,39 @@ def run_validate(ctx, nscen, thorough):
                 continue
             if kind == 'plain':
                 continue
+            if kind == 'junit':
+                # every <testsuite> (one per data file) carries the marks and the counters of its own pairs only
+                import xml.etree.ElementTree as ET
+                try:
+                    root = ET.fromstring(so.decode())
+                except ET.ParseError as e:
+                    ctx.failing('batch: JUnit output is not well-formed XML: %s' % e, dict(info, mode=kind), found=True)
+                    continue
+                suites = list(root.iter('testsuite'))
+                if len(suites) != nd:
+                    ctx.failing('batch: JUnit has %d test suites for %d data files' % (len(suites), nd), dict(info, mode=kind), found=True)
+                    continue
+                for j, suite in enumerate(suites):
+                    marks = []
+                    for tc in suite.iter('testcase'):
+                        marks.append('FAIL' if tc.find('failure') is not None else ('ERROR' if tc.find('error') is not None else
+                                     ('SKIP' if (tc.get('status') == 'skip' or tc.find('skipped') is not None) else 'PASS')))
+                    wantm = [singles[(i, j)][1]['status'] for i in range(nr)]
+                    wantf = str(sum(1 for x in wantm if x == 'FAIL'))
+                    if marks != wantm or suite.get('failures') != wantf or suite.get('errors') != '0':
+                        ctx.failing('batch: JUnit suite of data file %d has marks %s failures=%s errors=%s; the pairs validated alone give %s failures=%s errors=0' % (
+                            j, marks, suite.get('failures'), suite.get('errors'), wantm, wantf), dict(info, mode=kind, data_index=j), found=True)
+                continue
             rep = reports(so)
             if rep is None or len(rep) != nd:
                 ctx.failing('batch (%s) structured output has %s reports for %d data files' % (kind, None if rep is None else len(rep), nd), dict(info, mode=kind), found=True)
                 continue
             for j in range(nd):
-                name = ('DATA_STDIN[%d]' % (j + 1)) if kind == 'payload' else 'data/d%d.json' % j
+                dname = ('data/s%d/template.json' % j) if k % 2 == 1 else ('data/d%d.json' % j)
+                name = ('DATA_STDIN[%d]' % (j + 1)) if kind == 'payload' else dname
                 fr = rep.get(name)
                 if fr is None:
-                    fr = next((v for n, v in rep.items() if n.endswith('d%d.json' % j)), None)
+                    fr = next((v for n, v in rep.items() if n.endswith(dname.split('/', 1)[1])), None)
                 if fr is None:
                     ctx.failing('batch (%s): no report for data file %d' % (kind, j), dict(info, mode=kind, names=list(rep)), found=True)
                     continue
